@@ -8,13 +8,16 @@ NOTE_COMMON = ("Trusted: Lean 4.33 kernel (axioms audited per theorem on every r
                "Quot.sound; no native_decide/bv_decide/sorry); the Spec layer as transcription of ITU-R M.1371-5/NMEA "
                "0183; the hand-written Lean model being the code, which this check tests by running model and "
                "implementation on the same operation stream (harness rebuilt from /repo's working tree); nom 7.1.3 / "
-               "heapless 0.7.17 / core semantics as modelled (DESIGN.md section 8).")
+               "heapless 0.7.17 / core semantics as modelled (DESIGN.md section 8). Every line is also fed to a twin parser "
+               "built with Default::default(); the private parser state read from {:?} is believed only after probing "
+               "(DESIGN.md 11.6); an internal error of a judge is reported as a correspondence failure, never as a pass.")
 
 # id -> (claimed?, level text, technique, design_ref, extra note)
 PROPS = {
     "C01": ("Totality of AisParser::parse, messages::unarmor (fill 0-5) and messages::parse is a theorem about the "
             "three-valued model (ok/err/panic) for all inputs, states and configurations; the correspondence runs "
-            "all three dev-profile builds on random, structured and state-building inputs and fails on any panic.",
+            "all three dev-profile builds (and a fourth, unoptimised std build for inputs that repeat one structural element "
+            "tens of thousands of times) on random, structured and state-building inputs and fails on any panic or abort.",
             "Lean 4 theorems: step/unarmor/parseMessage never return panic; correspondence on 3 builds", "7/C01",
             "Not covered by any model: stack exhaustion, allocator abort, memory safety of unsafe push_unchecked and of dependencies."),
     "C02": ("Checksum gate proved on the model of parse_nmea_sentence + check_checksum (accepted => XOR of the bytes "
@@ -37,7 +40,8 @@ PROPS = {
             "Lean 4 theorems over the sentence-grammar model; field-by-field comparison with a reference reader", "7/C07", ""),
     "C08": ("Accepted language characterised: sentence-level acceptance of the model iff the Shape predicate of the statement.",
             "Lean 4 theorem (grammar inversion); single-point mutations and near-misses in the correspondence", "7/C08", ""),
-    "C09": ("Spec.decode dispatches on field(bs,0,6): kind table, own type field, error for the 41 unsupported values, no panic - all proved.",
+    "C09": ("Spec.decode dispatches on field(bs,0,6): kind table, own type field, error for the 41 unsupported values, no panic - all proved; "
+            "the per-type public decoders are the arms of the dispatch (parseAs_eq) and report the six bits they were given (parseAs_kind).",
             "Lean 4 theorems parse_kind / unsupported_err via parseMessage_eq; all 64 types x lengths in the correspondence", "7/C09", ""),
     "C10": ("Two's-complement reading and the scale of every coordinate/speed/course/draught field proved as exact "
             "(raw integer, scale) pairs for every bit pattern; the reported f32 is computed in the model by a software "
